@@ -378,6 +378,75 @@ func TestPropReuse(t *testing.T) {
 	})
 }
 
+// ViaCase: two links that are each textually inside dst; the second leads out
+// by way of the first. In either order Unpack must refuse with an illegal-slug
+// error and must not leave the escaping link behind.
+type ViaCase struct {
+	First   tarx.Entry   `json:"first"`
+	Second  tarx.Entry   `json:"second"`
+	Swap    bool         `json:"swap"`
+	Between []tarx.Entry `json:"between,omitempty"`
+}
+
+var subVia = ev.Register("viareject", func(vc ViaCase) error {
+	c := ugen.Case{Spelling: "clean", Fault: ugen.Fault{Kind: "none"}}
+	a, b := vc.First, vc.Second
+	if vc.Swap {
+		a, b = b, a
+	}
+	c.Entries = append(append([]tarx.Entry{a}, vc.Between...), b)
+	ar, err := ugen.NewArena(c)
+	if err != nil {
+		return fmt.Errorf("harness: arena: %v", err)
+	}
+	defer ar.Close()
+	ev.NonTrivial(vc, "escape-by-way-of-another-link")
+	uerr, panicked := unpack(c, ar)
+	if panicked != nil {
+		return fmt.Errorf("Unpack panicked: %v", panicked)
+	}
+	if uerr == nil {
+		return fmt.Errorf("links %q -> %q and %q -> %q together lead out of dst, but Unpack returned nil", a.Name, a.Link, b.Name, b.Link)
+	}
+	var ise *slug.IllegalSlugError
+	if !errors.As(uerr, &ise) {
+		return fmt.Errorf("links %q -> %q and %q -> %q: refused with %T (%v), not an illegal-slug error", a.Name, a.Link, b.Name, b.Link, uerr, uerr)
+	}
+	links, _ := walkLinks(ar.Dst)
+	for _, l := range links {
+		res, _, loop := fsx.Resolve(filepath.Dir(filepath.Join(ar.Dst, l.rel)), l.target)
+		if !loop && !fsx.Inside(ar.Dst, res) {
+			return fmt.Errorf("Unpack reported %v but left the link %q -> %q, which resolves to %q", uerr, l.rel, l.target, res)
+		}
+	}
+	return nil
+})
+
+func TestPropVia(t *testing.T) {
+	ev.Check(t, subVia, func(t *rapid.T) ViaCase {
+		// first: a link to a directory above its own position but still inside dst
+		depth := rapid.IntRange(0, 2).Draw(t, "depth")
+		dir := strings.Repeat("d/", depth)
+		first := tarx.Entry{Name: dir + "up", Type: "symlink", Mode: 0777}
+		if depth == 0 {
+			first.Link = "."
+		} else {
+			first.Link = strings.TrimSuffix(strings.Repeat("../", depth), "/") // dst itself
+		}
+		// second: through the first, then up
+		tail := rapid.SampledFrom([]string{"..", "../..", "../dst-evil", "../dst-evil/x", "../outside/f", "../c3"}).Draw(t, "tail")
+		second := tarx.Entry{Name: rapid.SampledFrom([]string{"out", "e/out", "./out"}).Draw(t, "sname"), Type: "symlink", Mode: 0777}
+		sdepth := strings.Count(strings.TrimPrefix(second.Name, "./"), "/")
+		second.Link = strings.Repeat("../", sdepth) + dir + "up/" + tail
+		first.Raw, second.Raw = rapid.Bool().Draw(t, "raw1"), rapid.Bool().Draw(t, "raw2")
+		vc := ViaCase{First: first, Second: second, Swap: rapid.Bool().Draw(t, "swap")}
+		if rapid.Bool().Draw(t, "between") {
+			vc.Between = []tarx.Entry{{Name: "ok.txt", Type: "file", Mode: 0644, Body: "x"}}
+		}
+		return vc
+	})
+}
+
 func TestPropLinks(t *testing.T) {
 	ev.Check(t, subLinks, func(t *rapid.T) ugen.Case {
 		return ugen.GenCase(t, 60, 15, false, true)
